@@ -1,6 +1,8 @@
 """C13 — results do not depend on the memory layout or ownership of any array argument."""
 import re
 
+from fractions import Fraction as Fr
+
 import gen
 import vlib
 from gen import i1_line, i2_line, e_array, e_ainto, e_single, e_into
@@ -62,10 +64,25 @@ def generate(rng, tier):
                 p1, p2 = rng.sample(range(nq), 2)
                 qx[p1] = xs[-1] + (xs[-1] - xs[0]); qy[p2] = ys[0] - (ys[-1] - ys[0]) * 2
                 oob = True
+            lays2 = None
+            if ent in ("array", "ainto") and not oob and rng.random() < 0.25:
+                # the square-mesh idiom `interp_array(&q, &q.t())`: the y query array is the x query array with its last two axes
+                # exchanged, and the runner hands both over as two views of ONE allocation (x in standard order, y = x.swap_axes)
+                # — same first element, same shape, other strides (seed C13-r8m1: "the same array" decided by pointer and shape);
+                # the all-C twin of the case stores them separately
+                k_ = rng.choice([2, 3])
+                lo_, hi_ = max(xs[0], ys[0]), min(xs[-1], ys[-1])
+                if lo_ < hi_:
+                    qshape = rng.choice([[k_, k_], [2, k_, k_]])
+                    nq = gen.shape_size(qshape)
+                    qx = [lo_ + (hi_ - lo_) * Fr(rng.randint(0, 16), 16) for _ in range(nq)] if S == "Q" else [rng.uniform(lo_, hi_) for _ in range(nq)]
+                    qy = gen.transpose_last2(qshape, qx)
+                    lays2 = ("c", "perm")
+                    dtag, qtag = gen.pick_dims(rng, len(shape), len(qshape))
             if ent == "array":
-                e = e_array(S, qshape, qx, qy, qtag=qtag, lay=rng.choice(LN))
+                e = e_array(S, qshape, qx, qy, qtag=qtag, lay=rng.choice(LN), lays=lays2)
             elif ent == "ainto":
-                e = e_ainto(S, qshape, qshape + trailing, qx, qy, qtag=qtag, lay=rng.choice(LN), blay=rng.choice(LN))
+                e = e_ainto(S, qshape, qshape + trailing, qx, qy, qtag=qtag, lay=rng.choice(LN), blay=rng.choice(LN), lays=lays2)
             elif ent == "single" or nq == 0:
                 e = e_single(S, qx[0] if nq else xs[0], qy[0] if nq else ys[0])
             else:
